@@ -142,10 +142,15 @@ def gen_rtype(op, seed, thorough):
 IVALS_CORE = [0, 0x7FF, 0xFFFFF800, 0xFFFFFFFF, 0x80000000, 0x7FFFFFFF]
 
 
+LITE = False  # set by C02 (quick): boundary immediates instead of all 4096 / the 257-stride
+IMM12_BOUNDARY = [0, 1, 2, 3, 4, 5, 7, 8, 15, 16, 31, 32, 33, 63, 64, 127, 128, 255, 256, 1023, 1024, 2046, 2047,
+                  -1, -2, -3, -4, -5, -8, -16, -31, -32, -33, -128, -129, -1024, -2047, -2048, 0x555, -0x556]
+
+
 def gen_itype(op, seed, thorough):
     ra, rb = _regs(seed)
     vals = IVALS_CORE + rot([v for v in alpha.B32 if v not in IVALS_CORE], 2 * seed)[: (10 if thorough else 2)]
-    imms = list(range(-2048, 2048)) + [2048, 4095, 4096, -2049, 0x12345, -0x12345]
+    imms = (IMM12_BOUNDARY if LITE else list(range(-2048, 2048))) + [2048, 4095, 4096, -2049, 0x12345, -0x12345]
     for rd, rs1 in itertools.product((0, ra, rb), repeat=2):
         for imm in imms:
             ins = (op, rd, rs1, 0, imm)
@@ -227,7 +232,7 @@ def gen_utype(op, seed, thorough):
     if thorough:
         imms = range(0, 1 << 20)
     else:
-        imms = sorted(set(range((seed * 13) % 257, 1 << 20, 257)) | {0, 1, 0x7FFFF, 0x80000, 0x80001, 0xFFFFE, 0xFFFFF, 0x100000, -1, -0x80000, 0x12345})
+        imms = sorted(set(range((seed * 13) % 257, 1 << 20, 257 * (16 if LITE else 1))) | {0, 1, 0x7FFFF, 0x80000, 0x80001, 0xFFFFE, 0xFFFFF, 0x100000, -1, -0x80000, 0x12345})
     for imm in imms:
         for rd in ((ra, 0) if imm % 64 == 0 else (ra,)):
             for at in ((0, 4, 8188, 16380) if (op == "auipc" and imm % 16 < 2) else (0,)):
